@@ -143,6 +143,14 @@ def programs(tier):
                         ("call", "ram_routine", [("expr", "0x7e2000"), ("code", [("raw", "lda.w #k0"), ("raw", "sta.l fwd")])]),
                         ("call", "ram_routine", [("expr", "back"), ("code", [("raw", "nop")])])] + postlude()
     out.append(("splice-forwarded", prog))
+    # an argument spelled exactly like its parameter, the variable re-assigned between and after the applications
+    prog = prelude() + [("macrodef", "entry", ["idx"], [("raw", ".db idx"), ("raw", ".dw idx + k0")]), ("raw", "idx := 0"),
+                        ("call", "entry", [("expr", "idx")]), ("raw", "idx := idx + 1"), ("call", "entry", [("expr", "idx")]), ("raw", "idx := 7"),
+                        ("for", "n", "0", "2", [("call", "entry", [("expr", "idx")]), ("raw", "idx := idx + 1")])] + postlude()
+    out.append(("param-named-variable-reassigned", prog))
+    prog = prelude() + [("macrodef", "inner", ["idx"], [("raw", ".db idx")]), ("macrodef", "outer", ["idx"], [("call", "inner", [("expr", "idx")]), ("raw", "idx := idx + 1"), ("call", "inner", [("expr", "idx")])]),
+                        ("raw", "idx := 3"), ("call", "outer", [("expr", "idx")]), ("raw", "idx := 9"), ("call", "outer", [("expr", "idx + 1")])] + postlude()
+    out.append(("param-named-variable-forwarded", prog))
     # recursion terminated by .if
     for depth in (0, 1, 3):
         prog = prelude() + [("macrodef", "rec", ["n"], [("if", "n", [("raw", ".db n"), ("call", "rec", [("expr", "n - 1")])], None)]),
